@@ -32,6 +32,7 @@ class Conc:
     def __init__(self, dims, rs):
         self.dims, self.rs = dims, rs
         self.arrays, self.syms = {}, dict(dims)
+        Conc.current = self
 
     def arr(self, name, shape, lo=-2.0, hi=2.0, integer=None):
         shp = tuple(int(round(T.evalf(P(d), T.EvalEnv(self.syms)))) for d in shape)
@@ -80,6 +81,30 @@ class Skip(Exception):
 
 
 def first(paths):
+    """the path the concrete point takes: its path condition holds at the point (a code path taken only for particular
+    shapes -- one sample, one component -- must not be compared with the real run at another shape)"""
+    conc = getattr(Conc, "current", None)
+    if len(paths) > 1 and conc is not None:
+        env = conc.env()
+        keep = []
+        for pc, outcome in paths:
+            verdict = True
+            for c in pc:
+                try:
+                    if not T.evalf(T.C(c), env):
+                        verdict = False
+                        break
+                except Exception:
+                    verdict = None       # depends on values not drawn yet
+            if verdict is not False:
+                keep.append((verdict, pc, outcome))
+        sure = [k for k in keep if k[0] is True]
+        if len(sure) == 1:
+            paths = [(sure[0][1], sure[0][2])]
+        elif len(keep) == 1:
+            paths = [(keep[0][1], keep[0][2])]
+        else:
+            raise Skip("the code forks and the path of the concrete point is not determined")
     kind, payload = paths[0][1]
     if kind != "ok":
         raise Skip("the symbolic run raises %r" % (payload,))
@@ -159,7 +184,8 @@ def g_gmm(R):
                 sr.sum_pxx = conc2.arr("S", (C, D), 3, 9)
                 sr.t = conc2.sym("t", int(N + 3))
                 sr.log_likelihood = conc2.sym("ll", -7.5)
-                I.run_paths(lambda: I.call(lookup(I, "gmm.m_step"), [[ss], ms], {}))
+                if len(I.run_paths(lambda: I.call(lookup(I, "gmm.m_step"), [[ss], ms], {}))) != 1:
+                    continue          # forks: the mutated fixture belongs to the last path explored, not necessarily the concrete one
                 # re-run on fresh symbolic objects (run_paths executed the thunk on ms once: use it)
                 g.m_step([sr], mr)
                 for f, attr in (("_weights", "weights"), ("_means", "means"), ("_variances", "variances"), ("_g_norms", "g_norms"), ("_log_weights", "log_weights")):
